@@ -204,9 +204,16 @@ class SysInterp(Interp):
         if self.value_is_nan(other):              # a NaN tolerance: every ordered comparison is False
             return name == "ne"
         classes = {self.cls_of(s) for s in subjects}
+        kinds = {s[0] for s in subjects}
+        if kinds == {"bal"} and isinstance(subj_term, tuple) and subj_term[:2] in (("fn", "pymax"), ("fn", "pymin")):
+            # Python's max()/min() over several magnitudes: NaN only if the FIRST one is NaN; a later NaN never compares greater
+            args = [x for x in subj_term[2] if isinstance(x, tuple)]
+            per = [{self.cls_of(s) for s in self.subject(x)} for x in args]
+            if per and "nan" in per[0]:
+                return name == "ne"
+            classes = set().union(*[c - {"nan"} for c in per]) if per else set()
         if "nan" in classes:                       # every comparison with NaN is False, != is True
             return name == "ne"
-        kinds = {s[0] for s in subjects}
         if kinds == {"bal"}:
             # magnitude |balance| (max over the process / all processes) against the tolerance
             big = "bad" in classes or ("tiny" in classes and other[0] == "k" and other[1] == 0)
